@@ -189,9 +189,25 @@ def coq_eval(prop, tier, imports, fn, terms, ty, shard_size=400, timeout=900, ta
         rc, out = sh(["timeout", str(timeout), "coqc", "-Q", COQ, "Xds", "-w", "none", path], cwd=wd, timeout=timeout + 30)
         if rc != 0:
             raise CoqError("coqc failed on %s:\n%s" % (path, out[-3000:]))
+        # compiled outputs of case files are never needed again (disk space)
+        for ext in (".vo", ".vok", ".vos", ".glob"):
+            try:
+                os.remove(path[:-2] + ext)
+            except OSError:
+                pass
+        try:
+            os.remove(os.path.join(wd, "." + os.path.basename(path)[:-2] + ".aux"))
+        except OSError:
+            pass
         m = re.search(r"results\s*=\s*(.*?)\n\s*:\s*list", out, flags=re.S)
         if not m:
             raise CoqError("cannot parse coqc output for %s:\n%s" % (path, out[-2000:]))
+        # the case file itself is kept only when some verdict in it is false (for inspection)
+        if "false" not in m.group(1) and tier != "quick":
+            try:
+                os.remove(path)
+            except OSError:
+                pass
         return m.group(1)
     outs = []
     with ThreadPoolExecutor(max_workers=NCPU) as ex:
